@@ -542,7 +542,8 @@ def gen_gfa2(rng, canonical=True, nseg=None, nedges=None, ngaps=None, nfrags=Non
         d.ugroups.append({"uid": uid, "items": items, "tags": mk_tags()})
     ncustom = ncustom if ncustom is not None else rng.choice([0, 0, 0, 1, 2])
     for _ in range(ncustom):
-        rt = rng.choice(["X", "Y", "ZZ", "x1", "@"])
+        # (also types spelled with the letters of the predefined record types)
+        rt = rng.choice(["X", "Y", "ZZ", "x1", "@", "SE", "GU", "SEG", "UO", "FS", "EG", "LC", "CP", "HS", "ANN", "s", "9", "S1"])
         f = [rt] + [rng.choice(["abc", "1", "a b", "x:y", "*"]) for _ in range(rng.randint(0, 3))]
         f += tags_text(mk_tags())
         d.customs.append("\t".join(f))
